@@ -101,8 +101,11 @@ VARIABLES sp, me, done
 vars == <<sp, me, done>>
 Distinct(s) == \A p, q \in 1..Len(s) : p # q => s[p] # s[q]
 SeqsUpTo(S, n) == UNION {[1..m -> S] : m \in 1..n}
-Init == /\ sp \in {s \in SeqsUpTo(U, NMax) : Distinct(s)}
-        /\ me \in IF EqualMetrics THEN {[k \in 1..Len(sp) |-> 1]} ELSE [1..Len(sp) -> Met]
+\* the inputs of the design model; BestBasisEmit.tla writes exactly this set out for replay into the real function
+SpanLists == {s \in SeqsUpTo(U, NMax) : Distinct(s)}
+Metrics(s) == IF EqualMetrics THEN {[k \in 1..Len(s) |-> 1]} ELSE [1..Len(s) -> Met]
+Init == /\ sp \in SpanLists
+        /\ me \in Metrics(sp)
         /\ done = FALSE
 Next == ~done /\ done' = TRUE /\ UNCHANGED <<sp, me>>
 Spec == Init /\ [][Next]_vars
